@@ -348,7 +348,10 @@ impl<'a, D: AsRef<[u8]>, P: AsRef<[usize]>> Lend<'a, D, P> {
             buffer: Vec::with_capacity(128),
         };
         for _ in 0..offset {
-            res.next();
+            // past the end of the list there is nothing left to skip
+            if res.next().is_none() {
+                break;
+            }
         }
         res
     }
